@@ -56,6 +56,37 @@ type c11Behaviour struct {
 	LoseCount int    `json:"lose_count,omitempty"`
 	LoseWhat  string `json:"lose_what,omitempty"` // "" = the query never reaches the server | "answer" = the server acts on it, its answer is lost
 	DataSeed  int64  `json:"data_seed"`
+	// the tunnel domain, when it is not the usual t.example.org (the length of the domain decides how much room the probes
+	// and packets of every codec have in a query name)
+	Domain string `json:"domain,omitempty"`
+}
+
+func (b *c11Behaviour) domain() string {
+	if b.Domain != "" {
+		return b.Domain
+	}
+	return c11Domain
+}
+
+// c11LongDomain builds a tunnel domain of exactly n characters out of labels of at most 63.
+func c11LongDomain(n int) string {
+	var sb strings.Builder
+	for sb.Len() < n {
+		if sb.Len() > 0 {
+			sb.WriteByte('.')
+		}
+		room := n - sb.Len()
+		l := 40
+		if room <= 63 {
+			l = room
+		} else if room-l == 1 { // never leave room for a dot alone
+			l = 39
+		}
+		for i := 0; i < l; i++ {
+			sb.WriteByte("tunnelzone"[i%10])
+		}
+	}
+	return sb.String()
 }
 
 var c11TypeNames = []string{"NULL", "PRIVATE", "TXT", "SRV", "MX", "CNAME", "AAAA", "A"}
@@ -111,6 +142,9 @@ func (b *c11Behaviour) Class() string {
 	}
 	if b.LoseCmd != "" {
 		p = append(p, fmt.Sprintf("negotiation-loses-%s%s#%d+%d", b.LoseWhat, b.LoseCmd, b.LoseFrom, b.LoseCount))
+	}
+	if b.Domain != "" {
+		p = append(p, fmt.Sprintf("domain-of-%d-characters", len(b.Domain)))
 	}
 	if len(p) == 0 {
 		return "transparent"
@@ -506,17 +540,43 @@ func c11AllStacks() string {
 	return string(buf[:runtime.Stack(buf, true)])
 }
 
+// c11LockWait looks for the goroutine that runs Handshake; when it is parked in a mutex Lock it returns the
+// socketace function that asked for the lock.
+func c11LockWait(stacks string) string {
+	for _, g := range strings.Split(stacks, "\n\n") {
+		if !strings.Contains(g, ".(*ClientDnsConnection).Handshake(") || !strings.Contains(g, "sync.(*Mutex).Lock") {
+			continue
+		}
+		lines := strings.Split(g, "\n")
+		for i, l := range lines {
+			if strings.HasPrefix(l, "sync.(*Mutex).Lock") || strings.HasPrefix(l, "sync.(*Mutex).lockSlow") {
+				for _, c := range lines[i+1:] {
+					if strings.HasPrefix(c, "github.com/bokysan/socketace") {
+						f := c[strings.LastIndex(c, "/")+1:]
+						if k := strings.LastIndex(f, "("); k > 0 {
+							f = f[:k]
+						}
+						return f
+					}
+				}
+			}
+		}
+		return "?"
+	}
+	return ""
+}
+
 func c11Run(rec *vcommon.Rec, b *c11Behaviour) {
 	rec.Mark(b)
 	class := b.Class()
 	path := newC11Path(b)
 	scomm := &vServerComm{}
-	lst := NewServerDnsListener(c11Domain, scomm)
+	lst := NewServerDnsListener(b.domain(), scomm)
 	comm := newVClientComm(scomm, vAddr(11))
 	comm.path = path
 	path.comm = comm
 	defer func() { comm.Close(); scomm.Close() }()
-	client, err := NewClientDnsConnection(c11Domain, comm)
+	client, err := NewClientDnsConnection(b.domain(), comm)
 	if err != nil {
 		rec.Inconclusive("NewClientDnsConnection: "+err.Error(), b)
 		return
@@ -548,6 +608,18 @@ func c11Run(rec *vcommon.Rec, b *c11Behaviour) {
 			if n := path.Exchanges(); n != lastEx {
 				lastEx, lastChange = n, time.Now()
 			} else if time.Since(lastChange) > 60*time.Second {
+				// A Handshake that waits for a LOCK while nothing is exchanged is not slow, it is stuck: nobody is left to
+				// release the lock (every timeout of the path is virtual, an exchange takes microseconds).
+				if fn := c11LockWait(c11AllStacks()); fn != "" {
+					rec.Violation("handshake-does-not-terminate:waits-for-a-lock-nobody-holds:"+fn, b, map[string]interface{}{
+						"exchanges_when_stuck": n, "path_class": class, "seconds_without_an_exchange": 60, "goroutines": c11AllStacks()})
+					rec.Stat("behaviours", 1)
+					rec.Stat("outcome:non-termination", 1)
+					rec.Seen("behaviour_class", class)
+					rec.Seen("outcome_by_class", class+" => non-termination")
+					rec.Case(b.Key(), true)
+					return
+				}
 				rec.Inconclusive("watchdog: Handshake neither returned nor exchanged anything for 60s ("+class+")",
 					map[string]interface{}{"behaviour": b, "exchanges": n, "goroutines": c11AllStacks()})
 				rec.Stat("outcome:inconclusive", 1)
@@ -1080,6 +1152,26 @@ func c11Behaviours(rec *vcommon.Rec) []*c11Behaviour {
 			}
 		}
 	}
+	// other tunnel domains: the room that is left in a query name shrinks with the domain, down to where probes of the
+	// denser codecs do not fit any more
+	{
+		bases := []c11Behaviour{{}, {SevenBit: "qmark"}, {SevenBit: "drop"}, {Case: "lower"}, {Types: []string{"TXT"}, Refuse: "timeout"},
+			{Types: []string{"CNAME", "MX"}, Refuse: "nxdomain", SevenBit: "qmark"}, {Limit: 1024, Oversize: "drop"}, {Case: "lower", SevenBit: "drop"}}
+		lens := []int{4, 63, 100, 130, 150, 170, 190, 200}
+		if rec.Thorough() {
+			lens = []int{4, 17, 40, 63, 64, 80, 100, 120, 130, 140, 150, 160, 170, 180, 190, 200, 210}
+		}
+		for i, n := range lens {
+			for j, base := range bases {
+				if !rec.Thorough() && (i+j)%2 == 1 {
+					continue
+				}
+				b := base
+				b.Domain = c11LongDomain(n)
+				add(b)
+			}
+		}
+	}
 	if rec.Thorough() {
 		// all 255 non-empty subsets of answered types x two size limits, case modes and refusal modes rotating
 		for mask := 1; mask <= 255; mask++ {
@@ -1092,7 +1184,7 @@ func c11Behaviours(rec *vcommon.Rec) []*c11Behaviour {
 				add(b)
 			}
 		}
-		for len(out) < 760 {
+		for len(out) < 900 {
 			add(random())
 		}
 	}
